@@ -30,6 +30,7 @@ import (
 	"github.com/pyroscope-io/pyroscope/pkg/convert"
 	"github.com/pyroscope-io/pyroscope/pkg/server"
 	"github.com/pyroscope-io/pyroscope/pkg/storage"
+	"github.com/pyroscope-io/pyroscope/pkg/storage/dimension"
 	"github.com/pyroscope-io/pyroscope/pkg/storage/segment"
 	"github.com/pyroscope-io/pyroscope/pkg/storage/tree"
 	"github.com/pyroscope-io/pyroscope/pkg/structs/transporttrie"
@@ -124,6 +125,37 @@ func setup() *env {
 	return e
 }
 
+// storedKeys lists the segment keys the storage's index holds for applications whose name contains base.
+func (e *env) storedKeys(base string) string {
+	var apps []string
+	e.st.GetValues("__name__", func(v string) bool {
+		if strings.Contains(v, base) {
+			apps = append(apps, v)
+		}
+		return true
+	})
+	sort.Strings(apps)
+	items := []string{}
+	for _, app := range apps {
+		res, err := e.st.VerifCache("dimensions").Get("__name__:" + app)
+		if err != nil || res == nil {
+			continue
+		}
+		for _, k := range res.(*dimension.Dimension).VerifKeys() {
+			items = append(items, lib.Bytes([]byte(k)))
+		}
+	}
+	return lib.List(items)
+}
+
+func coqRunes(s string) string {
+	items := []string{}
+	for _, r := range s {
+		items = append(items, fmt.Sprintf("%d", r))
+	}
+	return lib.List(items)
+}
+
 // waitDirect waits until the asynchronous direct upload of application app has been stored, without reading
 // the series concurrently (a concurrent storage.Get could race with the Put — that is C08's subject, not C06's):
 // the label is written inside Put under the put mutex; a dummy Put afterwards returns only when that Put is over.
@@ -166,6 +198,18 @@ var unitsL = []string{"samples", "objects", "bytes", "lock_nanoseconds", "lock+n
 var appSuffixes = []string{"", "", ".c++", ".r&d", ".100%", ".a=b", ".what?", ".#1", ".x;y", ".a/b", ".two words", ".é", ".a+b&c%3D#?;/ d"}
 var tagVals = []string{"prod", "c++", "r&d", "100%", "a=b", "why?", "#7", "x;y", "a/b", "us west", "zürich", "+&%=?#;/ é", "%2B"}
 var tagKeys = []string{"env", "lang", "team", "k+1", "a&b", "q?", "p/q", "ключ"}
+
+func tagsIrregular(kv [][2]string) bool {
+	seen := map[string]bool{}
+	for _, p := range kv {
+		k := strings.TrimSpace(p[0])
+		if seen[k] || k != p[0] || strings.TrimSpace(p[1]) != p[1] {
+			return true
+		}
+		seen[k] = true
+	}
+	return false
+}
 
 func tagsString(kv [][2]string) string {
 	if len(kv) == 0 {
@@ -314,13 +358,25 @@ func gen(r *rand.Rand, idx int, tier string) Input {
 	if lib.Chance(r, 0.5) {
 		n := lib.Range(r, 1, 3)
 		used := map[string]bool{}
-		for i := 0; i < n; i++ {
+		dup := lib.Chance(r, 0.3)  // the same tag twice: the last value wins
+		pad := lib.Chance(r, 0.3)  // white space around keys, values and the application name
+		n += lib.Range(r, 0, 2)
+		sp := func(x string) string {
+			if pad && lib.Chance(r, 0.6) {
+				return lib.Pick(r, []string{" ", "  ", "\t"}) + x + lib.Pick(r, []string{" ", "", "  "})
+			}
+			return x
+		}
+		for i := 0; i < n; i++ { // picked in random (not sorted) order
 			k := lib.Pick(r, tagKeys)
-			if used[k] {
+			if used[k] && !dup {
 				continue
 			}
 			used[k] = true
-			in.TagKV = append(in.TagKV, [2]string{k, lib.Pick(r, tagVals)})
+			in.TagKV = append(in.TagKV, [2]string{sp(k), sp(lib.Pick(r, tagVals))})
+		}
+		if pad && lib.Chance(r, 0.5) {
+			in.AppX += lib.Pick(r, []string{" ", "  "})
 		}
 	}
 	in.UseCT = lib.Chance(r, 0.3)
@@ -555,7 +611,7 @@ func run(in Input) (res lib.Result) {
 		coq := "{| c_ms := " + lib.List(msItems) + "; c_text_ok := false; c_meta := None; c_groups := None; c_lines := None; c_trie := None; c_tree := None; " +
 			"c_job := None; c_job_ns := None; c_remote_slots := []; c_direct_slots := []; c_series := None; c_remote := None; c_direct := None; c_go_groups := None; c_go_lines := None; c_raw := " +
 			lib.Some("("+cbytes(in.Raw)+", "+parseGroupsGo(in.Raw)+", "+parseLinesGo(in.Raw)+")") +
-			"; c_remote_rawq := None; c_hostile_q := " + hostileQueryCoq(in.RawQuery) + "; c_raw_groups := " + rg + "; c_raw_lines := " + rl + " |}"
+			"; c_names := []; c_stored_keys := []; c_remote_rawq := None; c_hostile_q := " + hostileQueryCoq(in.RawQuery) + "; c_raw_groups := " + rg + "; c_raw_lines := " + rl + " |}"
 		return lib.Result{Coq: coq, NonTrivial: false, Feat: map[string]interface{}{"class": "raw", "raw_len": len(in.Raw), "raw_with_intent": len(in.MS) > 0}}
 	}
 	e.counter++
@@ -626,9 +682,11 @@ func run(in Input) (res lib.Result) {
 		tags = tagsString(in.TagKV)
 	}
 	tags = in.AppX + tags // appended to "<base>.<path>": application name suffix, then the tags
+	var namesSent []string
 	sentCoq := map[string]string{"groups": none, "lines": none, "trie": none, "tree": none}
 	for _, f := range in.Formats {
 		name := base + "." + f + tags
+		namesSent = append(namesSent, coqRunes(name))
 		q := url.Values{}
 		q.Set("name", name)
 		q.Set("from", strconv.FormatInt(st.Unix(), 10))
@@ -703,6 +761,7 @@ func run(in Input) (res lib.Result) {
 			switch u {
 			case "remote":
 				name := base + ".remote" + tags
+				namesSent = append(namesSent, coqRunes(name))
 				j := mkJob(name)
 				err := e.rem.UploadSync(j)
 				status := 200
@@ -723,6 +782,7 @@ func run(in Input) (res lib.Result) {
 				remoteCoq = lib.Some("(" + coqQuery(q) + ", " + lib.Bytes([]byte(ct)) + ", " + e.readBack(name, st, et, status) + ")")
 			case "direct":
 				name := base + ".direct" + tags
+				namesSent = append(namesSent, coqRunes(name))
 				e.dir2.Upload(mkJob(name))
 				e.waitDirect(strings.TrimSpace(base+".direct"+in.AppX), st, et)
 				if jobCoq == none {
@@ -761,7 +821,7 @@ func run(in Input) (res lib.Result) {
 	coq := "{| c_ms := " + treeu.CoqStacks(in.MS) + "; c_text_ok := " + lib.Bool(textok) + "; c_meta := " + metaCoq +
 		"; c_groups := " + sentCoq["groups"] + "; c_lines := " + sentCoq["lines"] + "; c_trie := " + sentCoq["trie"] +
 		"; c_tree := " + sentCoq["tree"] + "; c_job := " + jobCoq + "; c_job_ns := " + jobNs + "; c_remote_slots := " + remoteSlots + "; c_direct_slots := " + directSlots + "; c_series := " + seriesCoq + "; c_remote := " + remoteCoq + "; c_direct := " + directCoq +
-		"; c_go_groups := " + goGroups + "; c_go_lines := " + goLines + "; c_raw := None; c_remote_rawq := " + remoteRawq + "; c_hostile_q := None; c_raw_groups := None; c_raw_lines := None |}"
+		"; c_go_groups := " + goGroups + "; c_go_lines := " + goLines + "; c_raw := None; c_names := " + lib.List(namesSent) + "; c_stored_keys := " + e.storedKeys(base) + "; c_remote_rawq := " + remoteRawq + "; c_hostile_q := None; c_raw_groups := None; c_raw_lines := None |}"
 
 	// features: prefix structure
 	nonBoundary, prefixOf, repeats := false, false, false
@@ -804,7 +864,7 @@ func run(in Input) (res lib.Result) {
 		NonTrivial: nonBoundary || prefixOf,
 		Feat: map[string]interface{}{"class": in.Class, "formats": strings.Join(in.Formats, ","), "upload": strings.Join(in.Upload, ","),
 			"non_boundary_prefix": nonBoundary, "prefix_of_another": prefixOf, "repeats": repeats, "count_magnitude": mag,
-			"meta_omitted": in.Meta == nil, "stacks": len(in.MS), "by_content_type": in.UseCT, "tags": len(in.TagKV), "app_suffix": in.AppX, "job_start_9th_second_ge_500ms": in.JobStart >= 9500000000, "job_end_on_boundary": in.JobEnd == 10000000000 || in.JobEnd == 0},
+			"meta_omitted": in.Meta == nil, "stacks": len(in.MS), "by_content_type": in.UseCT, "tags": len(in.TagKV), "tags_duplicate_or_padded": tagsIrregular(in.TagKV), "app_suffix": in.AppX, "job_start_9th_second_ge_500ms": in.JobStart >= 9500000000, "job_end_on_boundary": in.JobEnd == 10000000000 || in.JobEnd == 0},
 	}
 }
 
